@@ -107,6 +107,17 @@ def _e2e_cases(prop, tier, seed):
         if rng.random() < 0.3:
             ops.insert(rng.randint(0, len(ops)), inl(rng.choice([m for m in MALFORMED if not m.startswith(b"-1 ?")])))
         cases.append(Case("e2e/%d" % i, header(mods, cfg) + heal_splits(ops) + ["eof"], tags={"mods": mods, "e2e": True}))
+    # a verdict decided by the timer alone (seeded change C01-13 flushed stdout only after input
+    # batches: the timer's verdict sat in stdio's buffer until the server's next line, which may
+    # be the withdrawal of that id or its re-announcement): complete client held softly by a
+    # silent service, real time passes, then the id is withdrawn and announced again
+    for k, svc in enumerate(["dronecheck", "login-ipr"]):
+        cfg = Cfg(timeout=1, services=[("drone.srv", svc)])
+        cid = [9, 300][k]
+        ops = [inl("%d C 192.0.2.9 4242 0::1 6667" % cid), inl("%d N host.example" % cid), inl("%d u ident" % cid),
+               inl("%d n nick" % cid), inl("%d U user :real name" % cid), "elapse", inl("%d D" % cid),
+               inl("%d C 192.0.2.10 4243 0::1 6667" % cid), inl("%d N other.example" % cid), "elapse", inl("%d D" % cid)]
+        cases.append(Case("e2e/timer%d" % k, header("xquery", cfg) + ops + ["eof"], tags={"mods": "xquery", "e2e": True}))
     return cases
 
 
@@ -140,6 +151,11 @@ def e2e_canon(rec, names=None):
     if cr[0] == "out":
         # several timers due in one `elapse`: libevent's heap is keyed by a coarse clock, equal
         # expiries pop in heap order; the model fires in table order — compare as multisets
+        late = [x for x in cr[2] if x.startswith("late=")]
+        if late:
+            # the driver saw these bytes only after it sent the next input line: a verdict decided
+            # by a timer was held back (never equal to a model record)
+            return ("out", tuple(sorted(cr[1])), "written-only-after-the-next-input-line", late[0])
         if any(x.startswith("fired=") for x in cr[2]):
             return ("out", tuple(sorted(cr[1])))
         return ("out", cr[1])
@@ -241,7 +257,17 @@ def _proj_lines(rec, rx):
     return [l for l in _lines_of(canon_record(rec)) if rx.match(l)]
 
 
+LATE_VERDICT = re.compile(rb"^[DRUk] ")
+
+
 def judge(prop, case, ir, sr, mr=None):
+    if prop in ("C01", "C03"):
+        # real program only: bytes the driver received only after it had sent the next input line
+        for i, r in enumerate(ir):
+            for tok in r.split(" ")[2:]:
+                if tok.startswith("late=") and any(LATE_VERDICT.match(l) for l in unhx(tok[5:]).split(b"\n")):
+                    return (i, "%s: a verdict decided by the timer was written only after the next input line arrived "
+                               "(it can reach the server after the id was withdrawn or announced again): %r" % (prop, unhx(tok[5:])))
     if prop in ("C06", "C11") and mr is not None:
         rx = XLINE if prop == "C06" else VERDICT
         for i in range(max(len(ir), len(mr))):
